@@ -64,6 +64,7 @@ type Exec struct {
 	keySorts      map[string]*smt.Sort
 	escaped       map[*Cell]bool
 	shared        map[*Cell]bool // cells reachable by unknown code (state.go shareValue)
+	capNames      map[string]TV  // "captures$name" -> true for the closure whose clause guards are being evaluated
 	famSafety     bool           // safety obligations inside the closures being checked (family contract flagged "safety")
 	fam           *famEnv
 	famN          int
